@@ -132,7 +132,9 @@ def extract(ctx):
             raise vlib.InfraError("candidate extraction: no trace in " + out[:80])
         calls = [c for c in im.trace.split(",") if c]
         if sub:
-            calls = calls[1:]  # the load of sub/s.scss itself
+            # drop the probes for sub/s.scss itself (up to and including its hit)
+            k = next((i for i, c in enumerate(calls) if c.endswith("+")), -1)
+            calls = calls[k + 1:]
         if any(not c.endswith("-") for c in calls):
             raise vlib.InfraError("candidate extraction: a probe for the unresolvable url hit: " + im.trace)
         body += f"def {name} : List Str := [" + ",\n  ".join(lit(c[:-1]) for c in calls) + "]\n"
